@@ -124,7 +124,7 @@ func (g *c08Gen) funBody(idx int) *ast.Node {
 	}
 	n := g.n(1, 5, "nstmts")
 	for k := 0; k < n; k++ {
-		switch g.n(0, 9, "fstmt") {
+		switch g.n(0, 10, "fstmt") {
 		case 0: // reassign a parameter
 			if len(f.params) > 0 {
 				p := f.params[g.n(0, len(f.params)-1, "p")]
@@ -180,6 +180,17 @@ func (g *c08Gen) funBody(idx int) *ast.Node {
 			f.locals = append(f.locals, bnd)
 			// the binding must be gone after the case
 			stmts = append(stmts, ast.Print(ast.Str(f.name+":b"), ast.Is(ast.Id(bnd), "unknown")))
+		case 9: // a bare return (yields null) guarded by a condition, possibly after a nested call returned something
+			if idx+1 < len(g.funs) && g.b("callfirst") {
+				l := fmt.Sprintf("l%d_%d", idx, len(f.locals))
+				f.locals = append(f.locals, l)
+				stmts = append(stmts, ast.ExprS(ast.Set(ast.Id(l), g.callExpr(idx+1, func() *ast.Node { return g.valExpr(f, assigned, 0) }))))
+				assigned = append(assigned, l)
+				g.labels["bare-return-after-nested-call"] = true
+			}
+			cond := ast.Bin(rapid.SampledFrom([]string{">", "<", "==", "!="}).Draw(g.t, "brop"), g.valExpr(f, assigned, 0), ast.Num(fmt.Sprint(g.n(0, 5, "brthr"))))
+			stmts = append(stmts, ast.If(cond, ast.Block(ast.Return(nil))))
+			g.labels["bare-return"] = true
 		case 7: // first touch of a name that no rule ever assigns
 			l := fmt.Sprintf("n%d", idx)
 			f.locals = append(f.locals, l)
